@@ -373,6 +373,107 @@ def md_padding(chk):
     chk.floor('padding cases evaluated', n, 20)
 
 
+def md_update(chk):
+    """update(): input is appended to the block buffer at count mod B; each time the buffer fills, exactly one compression call runs
+    over it; the remainder stays buffered; count grows by the input length -- whatever the split.  Decided by partial evaluation with
+    (count, len) pinned around the block boundary: the optimised straight-line code must be the reference sequence of
+    copies / compression calls, and count += len."""
+    from .. import oblig
+    R = 'md-update-chunking'
+    CASES = [
+        ('src/hash/md5.c', 'br_md5_update', 'br_md5_context', 64, ['br_md5_round']),
+        ('src/hash/sha1.c', 'br_sha1_update', 'br_sha1_context', 64, ['br_sha1_round']),
+        ('src/hash/sha2small.c', 'sha2small_update', 'br_sha224_context', 64, ['br_sha2small_round']),
+        ('src/hash/sha2big.c', 'sha2big_update', 'br_sha384_context', 128, ['sha2big_round']),
+        ('src/hash/md5sha1.c', 'br_md5sha1_update', 'br_md5sha1_context', 64, ['br_md5_round', 'br_sha1_round']),
+    ]
+    n = 0
+    for src, fn, st, B, rounds in CASES:
+        U = oblig.funit(src)
+        if fn not in U.funcs:
+            raise AnalysisBroken('%s vanished from %s' % (fn, src))
+        F = U.func(fn)
+        L = irf.Layouts(U.unit)
+        o_cnt, o_buf = L.field(st, 'count')[0], L.field(st, 'buf')[0]
+        loads = [x for x in U.field_loads(fn, 0, o_cnt)]
+        if not loads:
+            raise AnalysisBroken('%s: no load of count' % fn)
+        first = min(loads, key=lambda x: F.order[x['id']])
+        plen = F.f['params'][2]
+        for cnt, ln in ((0, B), (B - 4, 4), (B - 4, 10), (5, 7), (B - 1, 1), (3 * B + 7, B - 7)):
+            hy = [dict(kind='pin', n=first['n'], value=cnt), dict(kind='assume', n=plen['n'], ty=plen['ty'], pred='eq', value=ln, param=True)]
+            Fo = U.optimise(fn, hy, tuple(rounds))
+            reach = Fo.reachable()
+            blocks = [b for b in Fo.blocks if b['id'] in reach]
+            if len(blocks) != 1:
+                continue
+            seq = []
+            cstore = None
+            for i in blocks[0]['insts']:
+                if i['op'] == 'call':
+                    cal = i.get('callee') or ''
+                    if cal.startswith('llvm.memcpy') or cal.startswith('llvm.memmove'):
+                        b, o = Fo.addr_of(i['ops'][0])
+                        sb, so = Fo.addr_of(i['ops'][1])
+                        if b == {'k': 'a', 'v': 0} and i['ops'][2]['k'] == 'c':
+                            seq.append(('copy', o - o_buf, so if sb == {'k': 'a', 'v': 1} else None, i['ops'][2]['v']))
+                    elif cal in rounds:
+                        b, o = Fo.addr_of(i['ops'][0])
+                        seq.append(('round', cal, (o - o_buf) if b == {'k': 'a', 'v': 0} and o is not None else None))
+                elif i['op'] == 'store':
+                    b, o = Fo.addr_of(i['ops'][1])
+                    if b == {'k': 'a', 'v': 0} and o is not None:
+                        if o == o_cnt:
+                            v = i['ops'][0]
+                            if v['k'] == 'c':
+                                cstore = (cstore or 0) + (v['v'] - cnt)
+                            elif v['k'] == 'i' and Fo.insts[v['v']]['op'] == 'add':
+                                a_ = Fo.insts[v['v']]['ops']
+                                cs = [q for q in a_ if q['k'] == 'c']
+                                ld = [q for q in a_ if q['k'] == 'i' and Fo.insts[q['v']]['op'] == 'load'
+                                      and Fo.addr_of(Fo.insts[q['v']]['ops'][0]) == ({'k': 'a', 'v': 0}, o_cnt)]
+                                if cs and ld:
+                                    cstore = (cstore or 0) + cs[0]['v']
+                                else:
+                                    cstore = -1 << 40
+                            else:
+                                cstore = -1 << 40
+                        elif o_buf <= o < o_buf + B:
+                            # a small copy lowered to scalar load/store: value loaded from data + k
+                            v = i['ops'][0]
+                            if v['k'] == 'i' and Fo.insts[v['v']]['op'] == 'load':
+                                sb, so = Fo.addr_of(Fo.insts[v['v']]['ops'][0])
+                                seq.append(('copy', o - o_buf, so if sb == {'k': 'a', 'v': 1} else None, i.get('size', 1)))
+            # reference
+            want = []
+            ptr, pos, rem = cnt % B, 0, ln
+            while rem > 0:
+                c = min(B - ptr, rem)
+                want.append(('copy', ptr, pos, c))
+                ptr += c
+                pos += c
+                rem -= c
+                if ptr == B:
+                    for r_ in rounds:
+                        want.append(('round', r_, 0))
+                    ptr = 0
+            # merge adjacent scalar copies in the observed sequence
+            merged = []
+            for e in seq:
+                if merged and e[0] == 'copy' and merged[-1][0] == 'copy' and merged[-1][2] is not None and e[2] is not None \
+                        and merged[-1][1] + merged[-1][3] == e[1] and merged[-1][2] + merged[-1][3] == e[2]:
+                    merged[-1] = ('copy', merged[-1][1], merged[-1][2], merged[-1][3] + e[3])
+                else:
+                    merged.append(e)
+            n += 1
+            inst = '%s: count = %d, len = %d' % (fn, cnt, ln)
+            if merged == want and cstore == ln:
+                chk.ok(R, inst, src, '%d step(s), count += %d' % (len(want), ln))
+            else:
+                chk.violation(R, inst, src, 'observed %s, count += %s; reference %s, count += %d' % (merged, cstore, want, ln), key='%s %s %d %d' % (R, fn, cnt, ln))
+    chk.floor('update cases evaluated', n, 15)
+
+
 def run(tier):
     chk = report.Check('C13', tier,
                        'Constant tables and class descriptors of the hash functions compared with values generated from the standards '
@@ -515,5 +616,6 @@ def run(tier):
     hmac_ct_window(chk)
     hmac_key_rules(chk)
     md_padding(chk)
+    md_update(chk)
     chk.floor('tables', sum(1 for o in chk.obls if o['rule'] == 'hash-constants'), 15)
     return chk.finish()
